@@ -163,6 +163,7 @@ META["C19"] = {
              "answer where the edit fixes it, hash agreement whenever ==. Non-trivial = every case; distinct = case "
              "digests."),
     "required": ["pairs:IoContract:outputs-extra", "pairs:IoContract:inputs-extra", "pairs:IoContract:copy",
+                 "pairs:IoContract:last-input-becomes-first-output", "pairs:IoContract:first-output-becomes-last-input",
                  "pairs:IoContract:guarantee-constant", "pairs:IoContract:guarantee-signed-zero-constant",
                  "pairs:PolyhedralTerm:signed-zero-constant", "pairs:PolyhedralTerm:copy",
                  "pairs:PolyhedralTermList:copy", "pairs:PolyhedralTermList:signed-zero-constant",
